@@ -204,6 +204,23 @@ std::string handle(const std::string& op, Args& a)
 		a.end();
 		return run_forked([&](Out& o) { put(o, Matrix(g)); });
 	}
+	if(op == "c04.blockr")	 // block constructor, arbitrary layout: <#rows> then per row <#blocks> blocks...
+	{
+		unsigned R = a.u64();
+		if(R > 8)
+			throw BadArgs("grid too large");
+		std::vector<std::vector<Matrix>> g(R);
+		for(auto& row : g)
+		{
+			unsigned C = a.u64();
+			if(C > 8)
+				throw BadArgs("grid too large");
+			for(unsigned c = 0; c < C; c++)
+				row.push_back(rd_mat(a));
+		}
+		a.end();
+		return run_forked([&](Out& o) { put(o, Matrix(g)); });
+	}
 	if(op == "c04.outer")
 	{
 		Vector u = rd_vec(a), v = rd_vec(a);
